@@ -132,6 +132,8 @@ class CModel(object):
             self.frames.append(Frame(None, self.top().cats))
         elif name == 'pushenv':
             self.frames.append(Frame(op[1], self.top().cats))
+            if op[1] in ENV_LOCAL:
+                self.top().locals[ENV_LOCAL[op[1]]] = -(op[1] + 1)      # the macro the environment brings (value numbers below zero)
         elif name == 'pop':
             while len(self.frames) > 1:
                 f = self.frames.pop()
@@ -247,11 +249,17 @@ def cases(seed, tier, shard, nshards):
 _env_classes = None
 
 
+ENV_LOCAL = {0: 'ka', 1: 'kb'}
+
+
 def env_classes():
     global _env_classes
     if _env_classes is None:
         import plasTeX
-        _env_classes = [type('zqenv%d' % i, (plasTeX.Environment,), {}) for i in range(3)]
+        # two of the three environment classes bring a local macro of their own (as lists bring \item and tables \\): its name is one
+        # of the names the sequences also define themselves
+        _env_classes = [type('zqenv%d' % i, (plasTeX.Environment,), ({ENV_LOCAL[i]: type(ENV_LOCAL[i], (plasTeX.Command,), {})} if i in ENV_LOCAL else {}))
+                        for i in range(3)]
     return _env_classes
 
 
@@ -331,6 +339,9 @@ def run_api(case, st):
                 o = env_classes()[op[1]]()
                 o.macroMode = o.MODE_BEGIN
                 ctx.push(o)
+                if op[1] in ENV_LOCAL:
+                    vals[-(op[1] + 1)] = getattr(env_classes()[op[1]], ENV_LOCAL[op[1]])
+                    keys_seen.add(ENV_LOCAL[op[1]])
             elif name == 'pop':
                 ctx.pop()
                 interesting = interesting or defined_or_cat
